@@ -93,6 +93,9 @@ inline long long to_i64(const std::string& s) { return strtoll(s.c_str(), 0, 10)
 
 typedef void (*CaseFn)(const Case&);
 
+#ifdef VERIF_COVERAGE
+extern "C" void __gcov_dump(void);
+#endif
 inline std::vector<Case> read_cases(FILE* in) {
     std::vector<Case> cases; Case cur; bool open = false;
     char* line = 0; size_t cap = 0; ssize_t n;
@@ -125,6 +128,9 @@ inline int run_all(CaseFn fn, unsigned timeout_s = 60) {
             fprintf(stderr, "=== case %s\n", cases[i].id.c_str());
             fn(cases[i]);
             fflush(stdout); fflush(stderr);
+#ifdef VERIF_COVERAGE
+            __gcov_dump();      // tools/harness_coverage.py: _exit would drop the counters of this case
+#endif
             _exit(0);
         }
         int st = 0;
